@@ -62,7 +62,13 @@ def run(prop, tier, seed):
             n = "C02_cm.cfg"
             g = [{"module": "MC_ClassModel.tla", "cfg": n, "workers": 4,
                   "opts": {"kinds": classmodel.KINDS["K14"], "bases": {"A": [], "B": ["A"]}, "nontrivial": "rejected"},
-                  "extra_defs": {n: classmodel.cfg("Cl2", "K14", "A02", 3 if quick else 4, 2, True)}}]
+                  "extra_defs": {n: classmodel.cfg("Cl2", "K14", "A02", 3, 2, True)}}]
+            if not quick:
+                # (exhaustive generation at depth 4 no longer fits the Java heap: depth 3 exhaustively plus random deeper behaviours)
+                n2 = "C02_cms.cfg"
+                g.append({"module": "MC_ClassModel.tla", "cfg": n2, "workers": 8, "simulate": 20000, "depth": 14, "seed": seed,
+                          "opts": {"kinds": classmodel.KINDS["K14"], "bases": {"A": [], "B": ["A"]}, "nontrivial": "rejected"},
+                          "extra_defs": {n2: classmodel.cfg("Cl2", "K14", "A02", 6, 2, True)}})
             stages.append(pipeline.replay_stage(g, "classmodel", {"tolerate": [e["tag"] for e in core.KnownFindings("C14").open]},
                                                 scratch, 2400, name="replay_classmodel"))
         if prop == "C02":
